@@ -37,6 +37,9 @@ type kmerCase struct {
 	// sequence: Other may be longer than it).
 	OStart int `json:"ostart,omitempty"`
 	OEnd   int `json:"oend,omitempty"`
+	// Offset: the location-relative offset given to the indexed sequence (and, negated, to the foreign
+	// one). The index works on letter positions counted from 0 whatever the offset.
+	Offset int `json:"offset,omitempty"`
 }
 
 func (c kmerCase) letters() string {
@@ -118,6 +121,7 @@ func revcomp(letters, w string) string {
 func check(c kmerCase) *vlib.Failure {
 	letters := c.letters()
 	s := linear.NewSeq("s", alphabet.BytesToLetters([]byte(c.Seq)), c.alpha())
+	s.SetOffset(c.Offset)
 	ki, err := kmerindex.New(c.K, s)
 	if err != nil {
 		return vlib.Failf("new", "New(%d, len %d): %v", c.K, len(c.Seq), err)
@@ -153,6 +157,7 @@ func check(c kmerCase) *vlib.Failure {
 			return nil
 		}
 		o := linear.NewSeq("o", alphabet.BytesToLetters([]byte(c.Other)), c.alpha())
+		o.SetOffset(-c.Offset)
 		return iter(tag, o, c.Other, c.OStart, c.OEnd)
 	}
 	if f := otherIter("other-sequence"); f != nil {
@@ -324,6 +329,18 @@ func check(c kmerCase) *vlib.Failure {
 			}
 		}
 	}
+	// the same questions again after the whole-index maps were asked for (an index that keeps what it
+	// computed for them must still answer every spelling of a word)
+	asked := 0
+	for w := range positions {
+		if asked++; asked > 40 {
+			break
+		}
+		if f := query(w); f != nil {
+			f.Msg += " (asked again after KmerIndex() / StringKmerIndex())"
+			return f
+		}
+	}
 	// sub-range iteration again after Build
 	if f := iter("range-after-build", s, c.Seq, c.Start, c.End); f != nil {
 		return f
@@ -415,6 +432,9 @@ func clipW(a []window) string {
 
 func classes(c kmerCase) []string {
 	var l []string
+	if c.Offset != 0 {
+		l = append(l, "indexed-sequence-with-an-offset")
+	}
 	letters := c.letters()
 	all := scan(letters, c.Seq, c.K, 0, len(c.Seq))
 	inner := false
@@ -511,6 +531,9 @@ func gen(t *rapid.T) kmerCase {
 		c.Alpha = rapid.SampledFrom([]string{"ACGT", "AcGt", "acgt", "tgca", "TGCA", "wxyz", "WXyz", "ACGU", "gatc", "Gatc"}).Draw(t, "alpha")
 	}
 	c.K = rapid.SampledFrom([]int{4, 4, 4, 5, 5, 6, 6, 7, 8, 9, 10}).Draw(t, "k")
+	if rapid.IntRange(0, 3).Draw(t, "with-offset") == 2 {
+		c.Offset = rapid.SampledFrom([]int{1, 2, 3, 7, 50, 1000, -1, -5}).Draw(t, "offset")
+	}
 	maxLen := 300
 	if vlib.Thorough() {
 		maxLen = 5000
